@@ -33,6 +33,15 @@ def plan(plan, tier, seed):
         plan.verus.append(VerusUnit("c16_guard", unit, {"match_exhaustiveness_guard": n3}, ["canary_guard"]))
     except AnchorLost as e:
         plan.anchor_errors.append((n3, str(e)))
+    n4 = "C16.verus.match_expression.first_matching_arm"
+    plan.ob(n4, "verus", "proved", functions=["match_expression (the arm loop, from `for (arm_ix, arm) in ..` to the end)"],
+            what="for every arm list, source value, environment, matcher, guard evaluator and expression evaluator: the result is the value of the body of the first arm, in source order, whose pattern matches the source and whose guard is true, evaluated under the bindings of its pattern (subject to the arm-kind validation); no other body is evaluated and no later arm is tested; a failing test is an error; no arm taken is an error")
+    try:
+        unit = vlib.verus_file([vC16._match_model(), vC16.match_arms_fn(etext, feats), vlib.verus_canary("canary_match", "x: u64", [])])
+        plan.verus.append(VerusUnit("c16_match", unit, {"match_arms": n4}, ["canary_match"]))
+    except AnchorLost as e:
+        plan.anchor_errors.append((n4, str(e)))
+    plan.dropped.append(vC16.match_arms_fn.__doc__.strip())
     plan.dropped.append(vC16.guard_fn.__doc__.strip())
     plan.functions += ["src/interpreter/src/functions.rs: execute_function_match_arms (arm loop), execute_user_function (arity guard)",
                        "src/interpreter/src/expressions.rs: match_expression (exhaustiveness guard statement only)"]
@@ -44,5 +53,6 @@ def plan(plan, tier, seed):
         "trace_println! statements are removed (tracing only)",
         "`#[cfg(..)]` attributes inside the match_expression guard are evaluated for the default feature set read from src/interpreter/Cargo.toml (closure of `default`); the pattern matcher reads and extends the environment it is given, 'matches' in the property = matches in a fresh environment",
     ]
-    plan.undecided_clauses += ["C16: match *expressions* beyond their exhaustiveness guard (match_expression: arm selection, guards, arm-kind validation, the Empty-coalescing special cases; infer_missing_enum_match_patterns itself), what the recurrence computes (tail-call loop of execute_user_function: no termination claim), element-wise broadcast over a matrix argument, the exhaustiveness pre-check of execute_function_match_arms, pattern_matches_value itself"]
+    plan.assumptions += ["match_expression arm loop: pattern_matches_value_with_semantics, guard_expression_true, expression, match_validate_arm_kinds are arbitrary functions (contracts/C16/matchmodel.rs); `detached_source` / `base_env` (computed above the loop) are parameters; nothing is claimed when the option/matrix coalescing case applies to the selected arm, nor when the guard of an earlier NON-matching arm fails to evaluate (the code evaluates such guards and reports their failure; the property is silent)"]
+    plan.undecided_clauses += ["C16: of match *expressions*: the statements above the arm loop (source evaluation, the Empty / wildcard pre-check), the option/matrix coalescing case, match_validate_arm_kinds and infer_missing_enum_match_patterns themselves; what the recurrence computes (tail-call loop of execute_user_function: no termination claim), element-wise broadcast over a matrix argument, the exhaustiveness pre-check of execute_function_match_arms, pattern_matches_value itself"]
     plan.level = "proof"
